@@ -165,6 +165,29 @@ def print_assumptions(prop_file):
     return rc == 0, thms, sorted(set(axioms)), out
 
 
+def coqchk(prop_file, timeout=2400):
+    """Independent re-check of a property file and everything it depends on (thorough tier).
+    Returns dict(ok, axioms, raw)."""
+    mod = "Sctp." + os.path.basename(prop_file)[:-2]
+    rc, out, dt = sh(["coqchk", "-silent", "-o", "-Q", "gen", "Sctp", "-Q", "model", "Sctp", "-Q", "proofs", "Sctp",
+                      "-Q", "props", "Sctp", mod], cwd=COQ, timeout=timeout)
+    axioms, bad = [], []
+    sect = None
+    for line in out.splitlines():
+        t = line.strip()
+        if t.startswith("* "):
+            sect = t
+            if t.endswith("<none>"):
+                sect = None
+            continue
+        if sect and t:
+            if sect.startswith("* Axioms"):
+                axioms.append(t)
+            elif "type-in-type" in sect or "unsafe" in sect or "positivity" in sect:
+                bad.append(sect + " " + t)
+    return dict(ok=(rc == 0 and not bad), axioms=axioms, bad=bad, raw=out[-1500:], wall=dt)
+
+
 # ---------------------------------------------------------------- extraction + comparator
 
 def gen_extract(gen):
